@@ -2,7 +2,7 @@
 import json, os
 from vlib import *
 
-INV_ALL = ["TypeOK", "InOrder", "NoLoss", "FramingInv", "BufferInv", "PongsOk", "NoPartialPong", "WritesOk",
+INV_ALL = ["TypeOK", "InOrder", "NoLoss", "FramingInv", "BufferInv", "PongsOk", "NoPartialPong", "WritesOk", "AllLeft",
            "UnitsOk", "OutContig", "DiscOk"]
 
 
@@ -12,7 +12,7 @@ def consts(**kw):
         "Transports": "<- TStream", "Flavors": "<- BothFlavors", "Verifies": "<- GateBoth",
         "WritePolicy": '= "write_all"', "UdpPolicy": '= "buffered"', "PongPolicy": '= "cancel_safe"',
         "MaxErr": "= 0", "MaxPending": "= 0", "MaxCancel": "= 0", "MaxTimeout": "= 0",
-        "MaxWrites": "= 0", "WLens": "<- None", "FrameOK": "<- FrameAny", "KeepHist": "= TRUE", "MaxQueued": "= 2", "Truncation": "= FALSE", "WriteFailures": "= FALSE",
+        "MaxWrites": "= 0", "WLens": "<- None", "FrameOK": "<- FrameAny", "KeepHist": "= TRUE", "MaxQueued": "= 2", "Truncation": "= FALSE", "WriteFailures": "= FALSE", "FlushPolicy": '= "flush"', "MaxBlock": "= 0",
         "EmSmallFills": "= 3", "EmSizes": "<- S13458", "EmPong": "<- None", "EmWacc": "<- None",
     }
     c.update(kw)
@@ -451,6 +451,12 @@ def check_C20(chk):
     mc(chk, "c20_ws", consts(Transports="<- TWs", Classes="<- ClsUdp", Flavors="<- OnlyTokio", Verifies="<- GateOn",
                              MaxFrames="= 3" if thorough else "= 2", MaxWrites="= 1", WLens="<- W4"), timeout=3000,
        needs=("PeerWsPack", "PeerWsOther", "FillWs", "FillEof"))
+    # write-side back pressure: with the required policy (a write completes only when the library has handed the message on)
+    # every frame has left when the operation is over; the adaptor that ignores a flush that is not ready must fail AllLeft
+    mc(chk, "c20_backpressure", consts(Transports="<- TWs", Classes="<- ClsKa", Flavors="<- OnlyTokio", Verifies="<- GateOn", MaxFrames="= 1",
+                                       MaxWrites="= 2", WLens="<- W4", MaxBlock="= 2"), needs=("WsBlock", "WsUnblock", "WriteAccept"))
+    mc(chk, "c20_mut_noflush", consts(Transports="<- TWs", Classes="<- ClsKa", Flavors="<- OnlyTokio", Verifies="<- GateOn", MaxFrames="= 1",
+                                      MaxWrites="= 2", WLens="<- W4", MaxBlock="= 1", FlushPolicy='= "no_flush"'), expect_violation="AllLeft")
     live(chk, "c20_live", consts(Transports="<- TWs", Classes="<- ClsUdp", Flavors="<- OnlyTokio", Verifies="<- GateOn", MaxFrames="= 2",
                                  KeepHist="= FALSE", MaxQueued="= 1"))
     nd, n = emit(chk, "c20_emit", consts(Transports="<- TWs", Classes="<- ClsPong", Flavors="<- OnlyTokio", Verifies="<- GateOn",
